@@ -212,6 +212,7 @@ class Registry:
         self.bounded = []
         self.inline_ok = set()
         self.axioms = {}        # name -> callable(*args) -> z3 formula  (trusted, named)
+        self.exact_attrs = {}   # (id(owner), attr) -> exact rational a float-valued constant stands for (A2)
 
     def add(self, c):
         self.contracts[id(c.fn.__code__)] = c
